@@ -641,6 +641,10 @@ pub struct WindowCase {
     pub desc: bool,
     /// false: no ORDER BY — only the validity predicate (size and sub-multiset) is checked
     pub ordered: bool,
+    /// unordered GQL / Cypher windows only: `RETURN n` (the node itself, no projection between the filter and
+    /// SKIP/LIMIT, so the limit operators see the filter's selection vector) instead of `RETURN n.pk`
+    #[serde(default)]
+    pub ret_node: bool,
 }
 
 fn bound(len: usize) -> BoxedStrategy<u32> {
@@ -664,9 +668,10 @@ fn window_case(big_share: u32) -> impl Strategy<Value = WindowCase> {
             prop_oneof![1 => Just(None), 4 => bound(len).prop_map(Some)],
             any::<bool>(),
             // GraphQL's orderBy is rejected by the planner (Err = cannot express): mostly unordered there
-            if lang == Lang::GraphQL { prop_oneof![1 => Just(true), 4 => Just(false)].boxed() } else { prop_oneof![4 => Just(true), 1 => Just(false)].boxed() },
+            if lang == Lang::GraphQL { prop_oneof![1 => Just(true), 4 => Just(false)].boxed() } else { prop_oneof![3 => Just(true), 2 => Just(false)].boxed() },
+            any::<bool>(),
         )
-            .prop_map(move |(pred, skip, limit, desc, ordered)| WindowCase { graph: graph.clone(), lang, pred, skip, limit, desc, ordered })
+            .prop_map(move |(pred, skip, limit, desc, ordered, ret_node)| WindowCase { graph: graph.clone(), lang, pred, skip, limit, desc, ordered, ret_node })
     })
 }
 
@@ -679,7 +684,13 @@ fn window_queries(c: &WindowCase, f: &Filtered) -> Option<(String, String)> {
             let cy = c.lang == Lang::Cypher;
             let key = if cy { "k" } else { "n.pk" };
             let ord = if c.ordered { format!(" ORDER BY {key}{}", if c.desc { " DESC" } else { "" }) } else { String::new() };
-            let full = if cy { format!("{} WITH n.pk AS k RETURN k{ord}", f.body) } else { format!("{} RETURN n.pk{ord}", f.body) };
+            let full = if !c.ordered && c.ret_node {
+                format!("{} RETURN n", f.body)
+            } else if cy {
+                format!("{} WITH n.pk AS k RETURN k{ord}", f.body)
+            } else {
+                format!("{} RETURN n.pk{ord}", f.body)
+            };
             let mut w = full.clone();
             if let Some(s) = s {
                 w.push_str(&format!(" SKIP {s}"));
